@@ -137,6 +137,25 @@ func (a *Analysis) ruleBuildVerdict() {
 	if circ && v.Cycle {
 		a.checkCyclePath(op.Err)
 	}
+	// C15.classes at Build: with exactly one defect in the set, its class is recognisable with
+	// errors.Is/As through the BuildError / validation / graph wrappers
+	if op.Err != nil && !a.faultInOp[op.GID] && !v.Dup && b2i(v.Cycle)+b2i(v.Conflict)+b2i(v.Missing) == 1 {
+		switch {
+		case v.Cycle && !circ:
+			a.add("C15", "C15.classes", "Build/circular", "the set has a dependency cycle; Build failed but no CircularDependencyError is reachable with errors.As: %v", firstLine(op.Err))
+		case v.Conflict && !life:
+			a.add("C15", "C15.classes", "Build/lifetime-conflict", "the set has a captive dependency; Build failed but no LifetimeConflictError is reachable with errors.As: %v", firstLine(op.Err))
+		case v.Missing && !hasClass(op.Classes, ENotFound):
+			a.add("C15", "C15.classes", "Build/not-found", "the set has a missing dependency; Build failed but ErrServiceNotFound is not reachable with errors.Is: %v", firstLine(op.Err))
+		}
+	}
+	for i, e := range a.h.regErrs {
+		if e != nil && !m.V.Accepted[m.Cfg.Regs[i].ID] {
+			if _, cls := classify(e); !hasClass(cls, EAlready) {
+				a.add("C15", "C15.classes", "Add/already-registered", "registration r%d duplicates an identity; it was rejected but no AlreadyRegisteredError is reachable with errors.As: %v", m.Cfg.Regs[i].ID, firstLine(e))
+			}
+		}
+	}
 	if !v.Cycle && !v.Missing && !v.Dup {
 		if life != v.Conflict {
 			if v.Conflict {
